@@ -5,6 +5,10 @@ S1  Coq: Props/C09.v (model of multimap_table.rs refines the sorted-map-of-sorte
 S3  the extracted SPEC replays the op log of the real crate: every result of every op must be equal
 S2  the extracted MODEL replays it too: inline/subtree tag + stored count per touched key must be equal
     (observed through the guarded hook MultimapTable::verif_collection_info)
+S2' the extracted TWO-LEVEL model (outer B-tree of collections + one inner B-tree per spilled key, both C04's shape
+    model; coq/Multimap/Subtree.v, theorem c09_two_level_refines_kv) replays it as well: its outputs, and per touched
+    key the whole tuple of the hook -- tag, stored count, is the subtree's root a LEAF, byte length of the inline /
+    root leaf -- must be equal; the replayed state passes C04's verified checker at every commit / abort
 """
 import json
 import os
@@ -50,7 +54,7 @@ def _run_once(ctx, n, big, tag):
         json.dump({"programs": len(intent) - 1, "lines": nl, "nontrivial_programs": 0, "crashed": True},
                   open(os.path.join(wd, "stats.json"), "w"))
     t0 = time.time()
-    rc2, err = ctx.driver("c09", "cases.txt", "driver_stdout.txt", args=("spec_out.txt", "model_out.txt", "model_rep.txt"))
+    rc2, err = ctx.driver("c09", "cases.txt", "driver_stdout.txt", args=("spec_out.txt", "model_out.txt", "model_rep.txt", "tl_out.txt", "tl_rep.txt"))
     ctx.notes.append("%s driver %.1fs" % (tag, time.time() - t0))
     if rc2 != 0:
         return False, "model driver failed rc=%s: %s" % (rc2, err), None, [], [], []
@@ -61,8 +65,14 @@ def _run_once(ctx, n, big, tag):
     _, s3 = ctx.diff_lines("impl_out.txt", "spec_out.txt", limit=8)
     _, s2a = ctx.diff_lines("model_out.txt", "spec_out.txt", limit=3)
     _, s2b = ctx.diff_lines("impl_rep.txt", "model_rep.txt", limit=8)
+    _, s2c = ctx.diff_lines("tl_out.txt", "spec_out.txt", limit=3)
+    _, s2d = ctx.diff_lines("impl_rep2.txt", "tl_rep.txt", limit=8)
+    try:
+        stats["two_level_replay"] = json.loads([l for l in _read(ctx, "driver_stdout.txt") if l.startswith("{")][-1])
+    except Exception:
+        stats["two_level_replay"] = None
     cases = _read(ctx, "cases.txt")
-    return True, None, stats, s3, (s2a, s2b), cases
+    return True, None, stats, s3, (s2a, s2b, s2c, s2d), cases
 
 
 def _report_s3(ctx, s3, cases, tag):
@@ -115,8 +125,8 @@ def run(ctx):
         except StopIteration:
             cov["samples"] = [{"op": _clip(cases[0], 160)}]
         _report_s3(ctx, s3, cases, "main")
-        s2a, s2b = s2
-        if s2a or s2b:
+        s2a, s2b, s2c, s2d = s2
+        if s2a or s2b or s2c or s2d:
             s2_ok = False
             d = []
             for (ln, a, b) in s2a:
@@ -128,6 +138,17 @@ def run(ctx):
                           "impl_representation": a, "model_representation": b,
                           "what": "inline/subtree state or stored count of the key differs from the model of multimap_table.rs",
                           "ops_up_to_difference": prog[1:][-40:]})
+            for (ln, a, b) in s2c:
+                d.append({"line": ln, "op": _clip(cases[ln - 1], 200), "two_level_out": _clip(a, 300), "spec_out": _clip(b, 300),
+                          "what": "extracted two-level model and spec disagree, or its state failed C04's checker (INV!) "
+                                  "(contradicts c09_two_level_refines_kv: are the order laws violated by the data?)"})
+            for (ln, a, b) in s2d:
+                prog = _program_of(cases, ln)
+                d.append({"line": ln, "program": prog[0] if prog else None, "op": _clip(cases[ln - 1], 200),
+                          "impl_collection_info": a, "two_level_model": b,
+                          "what": "tag / stored count / root-is-leaf / root leaf bytes of the key differ from the two-level model "
+                                  "(outer tree of collections + C04's shape model of the key's subtree)",
+                          "ops_up_to_difference": prog[1:][-40:]})
             s2_detail = d
             if not ctx.violations:
                 # directed search: more programs around the thresholds, other seeds
@@ -135,7 +156,7 @@ def run(ctx):
                 base = ctx.seed
                 for i in range(1, 4):
                     ctx.seed = base * 1000 + i
-                    ok2, det2, st2, s3b, _, cases2 = _run_once(ctx, n * 3, big, "search-%d" % i)
+                    ok2, det2, st2, s3b, _s2x, cases2 = _run_once(ctx, n * 3, big, "search-%d" % i)
                     searched.append({"seed": ctx.seed, "programs": st2["programs"] if st2 else 0, "ok": ok2,
                                      "result_differences": len(s3b)})
                     if ok2:
@@ -147,14 +168,19 @@ def run(ctx):
     cov["rule"] = ("programs = generated op sequences (insert/remove/remove_all/get/range fwd+rev with partially consumed "
                    "double-ended iterators/len/is_empty, several transactions with commit/abort/reopen and a read-transaction "
                    "dump after each) over <&[u8],&[u8]>, <u64,u64>, <&str,&[u8]>, page sizes 512..4096, value sizes empty..3 pages; "
+                   "every op line is also replayed through the extracted two-level model (outputs + tag/count/root-kind/root-leaf-bytes "
+                   "per touched key compared with the hook; markers in input_distribution.two_level_replay are counted by that replay); "
                    "evaluations = op lines compared; non-trivial = distinct program in which at least one key moved "
                    "inline->subtree, subtree->inline or was created directly as a subtree (counted by the harness)")
     cov["trusted_base"] = ["Coq 8.16.1 kernel + vm_compute", "harness/src/bin/c09.rs (generator, canonical text of results)",
                            "hook MultimapTable::verif_collection_info (read-only, guarded)",
                            "extraction (ExtrOcamlBasic only) + ocaml/c09_driver.ml",
-                           "the inner B-tree (BtreeMut<V,()>) is abstracted to a sorted set + an observed 'root is a leaf' bit"]
+                           "C04's B-tree model (Btree/Mutator.v, Shape.v) for both levels of the two-level model; the representation "
+                           "model (Model.v) still takes the 'root is a leaf' bit as an observed input",
+                           "page identity / checksums / page freeing of subtrees are not modelled (C06, C10)"]
     return ctx.finish("proof", cov,
                       assumptions=["Key::compare of K and V is a lawful total order whose Eq is byte equality (ord_laws; C15 proves it for the built-in types used)",
-                                   "the inner subtree B-tree implements a sorted set (C04's subject); only multimap_table.rs's representation logic is modelled",
+                                   "the inner subtree B-tree and the outer tree are C04's proved B-tree model (logical trees in the theorem, shape trees in the replay); "
+                                   "that model is tied to btree_mutator.rs by C04's shape correspondence and, for subtrees, by the root-kind / root-leaf-bytes comparison here",
                                    "commit/abort/reopen are modelled as copy / restore of the table state (durability is C01's subject)"],
                       s2_ok=s2_ok, s2_detail=s2_detail, searched=searched)
